@@ -125,6 +125,19 @@ _BINOPS = {
     ast.BitAnd: operator.and_,
     ast.BitXor: operator.xor,
 }
+_DUNDER_BIN = {
+    ast.Add: ("__add__", "__radd__"),
+    ast.Sub: ("__sub__", "__rsub__"),
+    ast.Mult: ("__mul__", "__rmul__"),
+    ast.Div: ("__truediv__", "__rtruediv__"),
+    ast.Pow: ("__pow__", "__rpow__"),
+    ast.MatMult: ("__matmul__", "__rmatmul__"),
+    ast.BitXor: ("__xor__", "__rxor__"),
+    ast.BitAnd: ("__and__", "__rand__"),
+    ast.BitOr: ("__or__", "__ror__"),
+    ast.Mod: ("__mod__", "__rmod__"),
+    ast.FloorDiv: ("__floordiv__", "__rfloordiv__"),
+}
 _CMPOPS = {
     ast.Eq: operator.eq,
     ast.NotEq: operator.ne,
@@ -469,11 +482,13 @@ class Interp:
         if f is None:
             raise Unsupported(f"operator {op.__name__}")
         _alias = getattr(self, "pytype_alias", None) or {}
-        _is_t = lambda x: isinstance(x, (ClassInfo, TypeUnion, ModelledClass, type)) or (callable(x) and not isinstance(x, Obj) and (x in _PYTYPES or x in _alias))  # noqa: E731
+        _is_t = lambda x: isinstance(x, (ClassInfo, TypeUnion, ModelledClass, type, _NumTower)) or (callable(x) and not isinstance(x, Obj) and (x in _PYTYPES or x in _alias))  # noqa: E731
         if op is ast.BitOr and (_is_t(a) or _is_t(b)) and not isinstance(a, (set, dict)) and not isinstance(b, (set, dict)):
             la = list(a) if isinstance(a, TypeUnion) else [a]
             lb = list(b) if isinstance(b, TypeUnion) else [b]
             return TypeUnion(la + lb)
+        if (self.obj_class(a) is not None or self.obj_class(b) is not None) and op in _DUNDER_BIN:
+            return self.obj_binop(op, a, b, node)
         if isinstance(a, sym.Ex):
             a = T.scalar(a)
         if isinstance(b, sym.Ex):
@@ -894,6 +909,54 @@ class Interp:
     def e_Starred(self, e, env, mod):
         raise Unsupported("starred expression outside call/display")
 
+    def py_sorted(self, x, key=None, reverse=False, node=None):
+        """sorted() with the lifted comparison protocol (uses only <, stable)"""
+        import functools
+
+        items = self.iterate(x, node)
+        if key is None:
+            keys = items
+        elif callable(key) and not isinstance(key, ClassInfo):
+            keys = [key(i) for i in items]
+        else:
+            keys = [self.call(key, [i], {}, node, None) for i in items]
+        if not any(_has_obj(k) for k in keys):
+            try:
+                order = sorted(range(len(items)), key=lambda j: keys[j], reverse=reverse)
+                return [items[j] for j in order]
+            except TypeError as ex:
+                raise LiftRaise(f"TypeError: {ex}", node)
+
+        def lt(a, b):
+            return self.truth(self.compare(ast.Lt, a, b, node), node)
+
+        def cmp(i, j):
+            return -1 if lt(keys[i], keys[j]) else (1 if lt(keys[j], keys[i]) else 0)
+
+        order = sorted(range(len(items)), key=functools.cmp_to_key(cmp), reverse=reverse)
+        return [items[j] for j in order]
+
+    def obj_binop(self, op, a, b, node=None):
+        """Python's binary operator protocol for instances of repository classes"""
+        fwd, rev = _DUNDER_BIN[op]
+        ka, kb = self.obj_class(a), self.obj_class(b)
+        order = [(a, fwd, b), (b, rev, a)]
+        if ka is not None and kb is not None and kb is not ka and kb.is_subclass_of(ka.name) and self.find_method(kb, rev)[0] is not None:
+            order.reverse()
+        for x, name, y in order:
+            k = self.obj_class(x)
+            if k is None:
+                continue
+            m, _ = self.find_method(k, name)
+            if m is None:
+                continue
+            r = self.call_function(m, [y], {}, self_obj=x)
+            if r is not NotImplemented:
+                return r
+        ta = ka.name if ka is not None else type(a).__name__
+        tb = kb.name if kb is not None else type(b).__name__
+        raise LiftRaise(f"TypeError: unsupported operand type(s) for {fwd}: '{ta}' and '{tb}'", node)
+
     def e_BinOp(self, e, env, mod):
         return self.binop(type(e.op), self.eval(e.left, env, mod), self.eval(e.right, env, mod), e)
 
@@ -901,6 +964,12 @@ class Interp:
         v = _num(self.eval(e.operand, env, mod))
         if isinstance(e.op, ast.Not):
             return not self.truth(v, e.operand)
+        if self.obj_class(v) is not None:
+            name = {ast.USub: "__neg__", ast.UAdd: "__pos__", ast.Invert: "__invert__"}[type(e.op)]
+            m, _ = self.find_method(self.obj_class(v), name)
+            if m is None:
+                raise LiftRaise(f"TypeError: bad operand type for unary {name}: '{self.obj_class(v).name}'", e)
+            return self.call_function(m, [], {}, self_obj=v)
         if isinstance(e.op, ast.USub):
             return -v
         if isinstance(e.op, ast.UAdd):
@@ -1107,6 +1176,13 @@ class Interp:
             # sequences compare element-wise with the elements' own (lifted) __eq__
             same = len(a) == len(b) and all(x is y or self.truth(self.compare(ast.Eq, x, y, node), node) for x, y in zip(a, b))
             return same if op is ast.Eq else not same
+        if op in (ast.Lt, ast.LtE, ast.Gt, ast.GtE) and isinstance(a, (tuple, list)) and type(a) is type(b) and (_has_obj(a) or _has_obj(b)):
+            # lexicographic order with the elements' own comparisons
+            for x, y in zip(a, b):
+                if x is y or self.truth(self.compare(ast.Eq, x, y, node), node):
+                    continue
+                return self.truth(self.compare(op if op in (ast.Lt, ast.Gt) else (ast.Lt if op is ast.LtE else ast.Gt), x, y, node), node)
+            return _CMPOPS[op](len(a), len(b))
         if isinstance(a, list) and isinstance(b, tuple) and op in (ast.Eq, ast.NotEq):
             return (op is ast.NotEq)
         try:
@@ -1267,6 +1343,8 @@ class Interp:
             r = self.isinstance_hook(x, cls)
             if r is not NotImplemented:
                 return r
+        if isinstance(cls, _NumTower):
+            return cls.check(x)
         if isinstance(cls, type):
             return isinstance(x, cls)  # host model classes (e.g. the ndarray model)
         alias = getattr(self, "pytype_alias", None)
@@ -1318,6 +1396,13 @@ class Interp:
             if getattr(self, "type_model", None) is not None and self.ufl_type_attr(k, nm, o) is not NotImplemented:
                 return True
             return False
+        if f is BUILTINS["sum"] and args and (any(self.obj_class(x) is not None for x in args[1:]) or any(self.obj_class(x) is not None for x in self.iterate(args[0], node))):
+            acc = args[1] if len(args) > 1 else kwargs.get("start", 0)
+            for x in self.iterate(args[0], node):
+                acc = self.binop(ast.Add, acc, x, node)
+            return acc
+        if f is BUILTINS["sorted"] and args:
+            return self.py_sorted(args[0], kwargs.get("key"), kwargs.get("reverse", False), node)
         if f is _b_len and len(args) == 1 and self.obj_class(args[0]) is not None and "__len__" not in args[0].attrs:
             m, _ = self.find_method(self.obj_class(args[0]), "__len__")
             if m is not None:
@@ -1555,6 +1640,20 @@ BUILTINS = {
     "pow": pow,
 }
 
+class _NumTower:
+    """numbers.Real / Complex / Number as isinstance targets (floats are Fractions in the lifted world)"""
+
+    def __init__(self, name):
+        self.name = name
+
+    def check(self, x):
+        if isinstance(x, (int, Fraction, float)):
+            return self.name != "Rational" or isinstance(x, int)
+        if isinstance(x, complex):
+            return self.name in ("Complex", "Number")
+        return False
+
+
 class _Chain:
     __lift_host__ = True
 
@@ -1568,8 +1667,10 @@ class _Chain:
 # documented standard-library semantics used by the analysed code (trusted models)
 STDLIB = {
     "numbers.Integral": BUILTINS["int"],
-    "numbers.Real": BUILTINS["float"],
-    "numbers.Number": BUILTINS["float"],
+    "numbers.Real": _NumTower("Real"),
+    "numbers.Rational": _NumTower("Rational"),
+    "numbers.Number": _NumTower("Number"),
+    "numbers.Complex": _NumTower("Complex"),
     "itertools.chain": _Chain(),
     "itertools.count": __import__("itertools").count,
     "itertools.product": lambda *a, repeat=1: list(__import__("itertools").product(*[_it(x) for x in a], repeat=repeat)),
